@@ -235,4 +235,167 @@ theorem finishMetadata_spec {F : Nat → Bool} {cfg : Cfg} {s : S} {old new c : 
         right
         simp [FS.view, FS.lookup, closedFS, hcn]
 
+/-! ### finish_entry -/
+
+theorem aborted_fin {old new : Bytes} {s : S} (ha : Aborted s) (hpl : PL old new s.w) : Fin old new s :=
+  ⟨hpl.2, ha.notmp, ha.tmp, fun _ => ⟨ha.fd, hpl.1⟩⟩
+
+/-- finish_entry on an entry whose temporary file is open. -/
+theorem finishEntry_data {F : Nat → Bool} {cfg : Cfg} {s : S} {old new c : Bytes}
+    (hleg : cfg.legacy = {}) (hs : Shape old c s) (hpl : PL old new s.w)
+    (hc : s.wd.incomplete = false → c.length = s.wd.fdOffset ∧ c.length ≤ cfg.size ∧ padTo cfg.size c = new) :
+    Fin old new (finishEntry F cfg s).1 := by
+  have hl1 : cfg.legacy.finishLeak = false := by rw [hleg]
+  have hl2 : cfg.legacy.statTarget = false := by rw [hleg]
+  have hl3 : cfg.legacy.renameAfterFailedWrite = false := by rw [hleg]
+  unfold finishEntry
+  simp only [hs.st]
+  obtain ⟨e1, e2⟩ := extendFile_spec (F := F) hs hl1 hl2 (fun h => (hc h).1)
+  have hple : PL old new (extendFile F cfg s).1.w := (extendFile_frame F cfg s).presPL hpl
+  split
+  · rename_i st hst
+    exact aborted_fin (e2 (by rw [hst]; simp)) hple
+  · rename_i hnone
+    obtain ⟨c', hs', hinc', hc'⟩ := e1 hnone
+    have hfr := fixups_frame F cfg (extendFile F cfg s).1
+    obtain ⟨t, hwd⟩ := fixups_wd F cfg (extendFile F cfg s).1
+    have hsf : Shape old c' (fixups F cfg (extendFile F cfg s).1).1 :=
+      ⟨by rw [hfr.fs_eq]; exact hs'.fs, by rw [hwd]; exact hs'.fd, by rw [hwd]; exact hs'.tmp,
+       by rw [hwd]; exact hs'.st⟩
+    refine finishMetadata_spec _ hsf ((noFx_frame_benign hfr).presPL hple) hl3 ?_
+    intro hi
+    have hi0 : s.wd.incomplete = false := by rw [← hinc']; rw [hwd] at hi; exact hi
+    obtain ⟨_, k2, k3⟩ := hc hi0
+    rw [hc' hi0 k2, k3]
+
+/-- finish_entry (and close, free) once the entry is settled. -/
+theorem finishEntry_fin {F : Nat → Bool} {cfg : Cfg} {s : S} {old new : Bytes} (h : Fin old new s) :
+    Fin old new (finishEntry F cfg s).1 := by
+  unfold finishEntry
+  split
+  · exact h
+  · exact h
+  · rename_i hst
+    obtain ⟨hfd, hpre⟩ := h.data hst
+    have he : extendFile F cfg s = (s, none) := by unfold extendFile; simp [hfd]
+    simp only [he]
+    have hfr := fixups_frame F cfg s
+    obtain ⟨t, hwd⟩ := fixups_wd F cfg s
+    have hlog : LogGood old new (fixups F cfg s).1.w :=
+      hfr.logGood_noFx (Or.inl hpre.view) h.log
+    have hfd' : (fixups F cfg s).1.wd.fd = false := by rw [hwd]; exact hfd
+    have htmp' : (fixups F cfg s).1.wd.tmpname = false := by rw [hwd]; exact h.wtmp
+    unfold finishMetadata
+    simp only [hfd', Bool.false_eq_true, ↓reduceIte]
+    refine ⟨hlog, ?_, htmp', fun k => by simp at k⟩
+    rcases h.notmp with k | k
+    · exact Or.inl (hfr.presLeak k)
+    · right; show (fixups F cfg s).1.w.fs.tmp = none; rw [hfr.fs_eq]; exact k
+
+/-! ### header -/
+
+theorem restoreEntry_frame (F : Nat → Bool) (cfg : Cfg) (s : S) (hsafe : cfg.safe = true) :
+    Frame Op.benign F s.w (restoreEntry F cfg s).1.w := by
+  unfold restoreEntry
+  simp only [hsafe, ↓reduceIte]
+  split
+  · frame_auto
+  · frame_auto
+  · split
+    · frame_auto
+    · exact Frame.trans (by frame_auto) (laMktemp_frame F cfg ⟨s.wd, _⟩)
+
+theorem sys_openExcl_init {F : Nat → Bool} {w : World} {old : Bytes} (h : w.fs = initFS old) :
+    (sys F w (.openExcl .target)).1.fs = initFS old ∧
+    ((sys F w (.openExcl .target)).2 = .inj ∨ (sys F w (.openExcl .target)).2 = .err) := by
+  rcases sys_res_cases F w (.openExcl .target) with ⟨h1, h2⟩ | ⟨_, h2, h3⟩
+  · exact ⟨by rw [h2, h]; simp, Or.inl h1⟩
+  · refine ⟨by rw [h2, h]; simp [initFS, FS.step, FS.lookup], Or.inr ?_⟩
+    rw [h3, h]; simp [initFS, FS.step, FS.lookup, Res.ofOpt]
+
+theorem sys_mkstemp_init {F : Nat → Bool} {w : World} {old : Bytes} (h : w.fs = initFS old) :
+    ((sys F w .mkstemp).2.isOk = false ∧ (sys F w .mkstemp).1.fs = initFS old) ∨
+    ((sys F w .mkstemp).2.isOk = true ∧ (sys F w .mkstemp).1.fs = shapeFS old []) := by
+  rcases sys_res_cases F w .mkstemp with ⟨h1, h2⟩ | ⟨_, h2, h3⟩
+  · left; exact ⟨by rw [h1]; rfl, by rw [h2, h]; simp⟩
+  · right
+    rw [h2, h3, h]
+    simp [initFS, shapeFS, FS.step, Res.ofOpt, Res.isOk]
+
+theorem laMktemp_spec {F : Nat → Bool} {cfg : Cfg} {s : S} {old : Bytes} (hl : cfg.legacy.mktempLeak = false)
+    (h : s.w.fs = initFS old) :
+    ((laMktemp F cfg s).2 = true ∧ (laMktemp F cfg s).1.w.fs = shapeFS old [] ∧
+        (laMktemp F cfg s).1.wd = { s.wd with tmpname := true, fd := true }) ∨
+    ((laMktemp F cfg s).2 = false ∧ (laMktemp F cfg s).1.wd = { s.wd with tmpname := false } ∧
+        (Leak (laMktemp F cfg s).1.w ∨ (laMktemp F cfg s).1.w.fs.tmp = none)) := by
+  unfold laMktemp
+  simp only [hl]
+  rcases sys_mkstemp_init (F := F) h with ⟨h1, h2⟩ | ⟨h1, h2⟩
+  · right
+    simp only [h1, Bool.not_false, ↓reduceIte]
+    and_intros
+    all_goals first | rfl | trivial | exact Or.inr (by rw [h2]; rfl)
+  · simp only [h1, Bool.not_true, Bool.false_eq_true, ↓reduceIte]
+    split
+    · right
+      exact ⟨rfl, rfl, sys_unlink_tmp F _⟩
+    · left
+      exact ⟨rfl, by rw [sys_noFx rfl]; exact h2, rfl⟩
+
+/-- `_archive_write_disk_header` over an existing regular file with SAFE_WRITES:
+either the temporary file is open and empty, or the call failed and nothing is left. -/
+theorem header_spec (F : Nat → Bool) (cfg : Cfg) (old new : Bytes) (hsafe : cfg.safe = true)
+    (hleg : cfg.legacy = {}) :
+    PL old new (header F cfg { fs := initFS old }).1.w ∧
+    (((header F cfg { fs := initFS old }).2 = .ok ∧ Shape old [] (header F cfg { fs := initFS old }).1 ∧
+        (header F cfg { fs := initFS old }).1.wd.incomplete = false ∧
+        (header F cfg { fs := initFS old }).1.wd.offset = 0 ∧
+        (header F cfg { fs := initFS old }).1.wd.fdOffset = 0) ∨
+     ((header F cfg { fs := initFS old }).2 ≠ .ok ∧ Fin old new (header F cfg { fs := initFS old }).1)) := by
+  have hl : cfg.legacy.mktempLeak = false := by rw [hleg]
+  have hpre0 : Pre old (initFS old) := ⟨rfl, rfl, by simp [initFS], by simp [initFS]⟩
+  have hpl0 : PL old new { fs := initFS old } := ⟨hpre0, fun ev h => by simp at h⟩
+  have hplr : PL old new (restoreEntry F cfg ⟨{ todoOwner := cfg.owner }, { fs := initFS old }⟩).1.w :=
+    (restoreEntry_frame F cfg _ hsafe).presPL hpl0
+  -- what restore_entry returns
+  have hr : ((restoreEntry F cfg ⟨{ todoOwner := cfg.owner }, { fs := initFS old }⟩).2 = .ok ∧
+        (restoreEntry F cfg ⟨{ todoOwner := cfg.owner }, { fs := initFS old }⟩).1.w.fs = shapeFS old [] ∧
+        (restoreEntry F cfg ⟨{ todoOwner := cfg.owner }, { fs := initFS old }⟩).1.wd
+          = { todoOwner := cfg.owner, tmpname := true, fd := true }) ∨
+      ((restoreEntry F cfg ⟨{ todoOwner := cfg.owner }, { fs := initFS old }⟩).2 = .failed ∧
+        (restoreEntry F cfg ⟨{ todoOwner := cfg.owner }, { fs := initFS old }⟩).1.wd
+          = { todoOwner := cfg.owner } ∧
+        (Leak (restoreEntry F cfg ⟨{ todoOwner := cfg.owner }, { fs := initFS old }⟩).1.w ∨
+          (restoreEntry F cfg ⟨{ todoOwner := cfg.owner }, { fs := initFS old }⟩).1.w.fs.tmp = none)) := by
+    unfold restoreEntry
+    simp only [hsafe, ↓reduceIte]
+    obtain ⟨o1, o2⟩ := sys_openExcl_init (F := F) (w := { fs := initFS old }) (old := old) rfl
+    rcases o2 with o2 | o2
+    · simp only [o2]
+      right
+      and_intros
+      all_goals first | rfl | trivial | exact Or.inr (by rw [o1]; rfl)
+    · simp only [o2]
+      have o3 : (sys F (sys F { fs := initFS old } (.openExcl .target)).1 (.lstat .target)).1.fs = initFS old := by
+        rw [sys_noFx rfl]; exact o1
+      split
+      · right; exact ⟨rfl, rfl, Or.inr (by rw [o3]; rfl)⟩
+      · rcases laMktemp_spec (F := F) (cfg := cfg)
+            (s := ⟨{ todoOwner := cfg.owner }, (sys F (sys F { fs := initFS old } (.openExcl .target)).1 (.lstat .target)).1⟩)
+            hl o3 with ⟨m1, m2, m3⟩ | ⟨m1, m2, m3⟩
+        · left; simp only [m1, ↓reduceIte]
+          and_intros
+          all_goals first | rfl | trivial | exact m2 | exact m3
+        · right; simp only [m1, Bool.false_eq_true, ↓reduceIte]
+          and_intros
+          all_goals first | rfl | trivial | exact m2 | exact m3
+  unfold header
+  simp only []
+  rcases hr with ⟨r1, r2, r3⟩ | ⟨r1, r2, r3⟩
+  · simp only [r1, ↓reduceIte]
+    refine ⟨hplr, Or.inl ⟨trivial, ⟨r2, ?_, ?_, rfl⟩, ?_, ?_, ?_⟩⟩ <;> simp [r3]
+  · simp only [r1, reduceCtorEq, ↓reduceIte]
+    refine ⟨hplr, Or.inr ⟨by simp, hplr.2, r3, by rw [r2], fun h => ?_⟩⟩
+    rw [r2] at h; simp at h
+
 end LA.SafeWrite
